@@ -65,6 +65,26 @@ pub fn check_ints(rep: &mut Report, m: &mut ReManager, a: &[u32], seed: u64) {
             Err(msg) => rep.violation("int-constructor", &format!("int-constructor:{}", how), format!("{}({}) panicked: {}", how, show_str(a), msg), "u32s", &case, seed),
         }
     }
+    // fixed-size array references
+    let arrs: Vec<(&str, Option<SmtString>)> = vec![
+        ("From<&[u32; 1]>", if a.len() == 1 { Some(SmtString::from(&[a[0]])) } else { None }),
+        ("From<&[u32; 2]>", if a.len() == 2 { Some(SmtString::from(&[a[0], a[1]])) } else { None }),
+        ("From<&[u32; 3]>", if a.len() == 3 { Some(SmtString::from(&[a[0], a[1], a[2]])) } else { None }),
+        ("From<&[u32; 4]>", if a.len() == 4 { Some(SmtString::from(&[a[0], a[1], a[2], a[3]])) } else { None }),
+    ];
+    for (how, r) in arrs {
+        if let Some(x) = r {
+            rep.inc("integer_constructor_probes");
+            if v(&x) != want {
+                rep.violation("int-constructor", &format!("int-constructor:{}", how), format!("{}({}) = {}, expected {}", how, show_str(a), show_str(&v(&x)), show_str(&want)), "u32s", &case, seed);
+            }
+        }
+    }
+    for &c in a {
+        if good_char(c) != (c <= MAXC) || good_string(&[c]) != (c <= MAXC) {
+            rep.violation("int-constructor", "int-constructor:good_char", format!("good_char/good_string({:x}) wrong", c), "u32s", &case, seed);
+        }
+    }
     if a.len() == 1 {
         rep.inc("integer_constructor_probes");
         let x = SmtString::from(a[0]);
